@@ -104,6 +104,22 @@ theorem ext_step (F : Facts) (hs : F.sound = true) (st : Fed) (op : Op) :
       refine Ext.comp (fun x => ext_afterRead F x) ?_
       refine Ext.trans (Ext.of_eq (c' := { st := { st with connOpen := false } }) rfl rfl) ?_
       exact (ext_lock [] F.sendLock _ (by simp)).trans (ext_scheduleReconnectLocked _)
+  | hold =>
+    dsimp -zeta only
+    extract_lets c
+    split
+    · exact Ext.refl _ _
+    · unfold connectionLost
+      refine Ext.comp (fun x => ext_afterRead F x) ?_
+      refine Ext.trans (Ext.of_eq (c' := { st := { st with connOpen := false, peerDown := true } }) rfl rfl) ?_
+      exact (ext_lock [] F.sendLock _ (by simp)).trans (ext_scheduleReconnectLocked _)
+  | up =>
+    dsimp -zeta only
+    extract_lets c
+    split
+    · exact Ext.refl _ _
+    · refine Ext.comp (fun x => ext_afterRead F x) ?_
+      exact Ext.of_eq rfl rfl
   | localLeave =>
     dsimp -zeta only
     extract_lets c c1 c2
@@ -227,6 +243,9 @@ def pinnedFacts : Facts where
   sendErrorReconnects := true
   sendWithoutConnDefersNonRoom := true
   closeRechecksConn := false
+  handlerUncheckedAsserts := 0
+  unboundedLoops := []
+  flushOverSnapshot := true
 
 example : pinnedFacts.sound = false := by decide
 
@@ -255,6 +274,54 @@ theorem C12_unchecked_bye_crashes :
     (step { generatedFacts with closeRechecksConn := false } (startState false false)
       (.peer (.msg { bare "welcome" "" with welcome := some { features := [] } }) true)).fault
       = some (.crash "closeConnection:c.conn.WriteControl") := by decide
+
+/-! ### Values the handlers decode themselves, loops of the read loop -/
+
+/-- The hello of a successful resume, the connection breaking while the queued messages are sent (the write fails,
+`sendMessageLocked` puts the message back): a flush loop that takes its messages from the live queue never
+ends — the read loop spins holding `mu`, and whoever needs `mu` next (the session being closed by the hub's
+housekeeping, the client's next message) waits forever. -/
+def resumedWithPending : Fed :=
+  { startState true false with resumeId := "remote-resume", helloMsgId := "h2", reconnecting := true,
+                               pending := ["message(@LSID@)"] }
+
+theorem C12_live_queue_flush_spins :
+    (step { generatedFacts with flushOverSnapshot := false } resumedWithPending
+      (.peer (.msg { bare "hello" "h2" with hello := some { sessionId := "remote-sid", resumeId := "remote-resume" } }) true)).fault
+      = some (.spin "processHello:pending-messages") := by decide
+
+/-- … with the snapshot the same step ends: the message is queued again, the connection re-opened. -/
+example :
+    let c := step generatedFacts resumedWithPending
+      (.peer (.msg { bare "hello" "h2" with hello := some { sessionId := "remote-sid", resumeId := "remote-resume" } }) true)
+    c.fault = none ∧ c.st.pending = ["message(@LSID@)"] ∧ c.effs.contains .reconnected = true := by decide
+
+/-- An `already_joined` error whose details are a well-formed object without `room`, the nil test on the value
+`processMessage` decoded from them missing: nil dereference in the read loop. -/
+theorem C12_unguarded_details_crashes :
+    (step { generatedFacts with derefs := detailsRoomDeref :: generatedFacts.derefs }
+      { startState true false with hello := some { sessionId := "remote-sid", resumeId := "remote-resume" } }
+      (.peer (.msg { bare "error" "" with error := some { code := "already_joined", detailsEmpty := false, detOk := true,
+                                                           detRoom := none, origDroom := "~" } }) false)).fault
+      = some (.crash "processMessage:details.Room") := by decide
+
+/-- … with today's facts the error is forwarded (one message to the local client, nothing else). -/
+example :
+    let c := step generatedFacts
+      { startState true false with hello := some { sessionId := "remote-sid", resumeId := "remote-resume" } }
+      (.peer (.msg { bare "error" "" with error := some { code := "already_joined", detailsEmpty := false, detOk := true,
+                                                           detRoom := none, origDroom := "~" } }) false)
+    c.fault = none ∧ c.effs.length = 1 := by decide
+
+/-- Spelled out: no loop of the handlers depends on live state, the pending messages are sent from a snapshot,
+no unchecked assertion on decoded JSON. -/
+theorem C12_read_loop_bounded :
+    generatedFacts.unboundedLoops = [] ∧ generatedFacts.flushOverSnapshot = true ∧
+    generatedFacts.handlerUncheckedAsserts = 0 := by decide
+
+/-- While the remote server refuses connections the client only re-arms its timer: nothing is sent to anybody. -/
+example : (step generatedFacts { startState true false with connOpen := false, peerDown := true, timer := true } .localMsg).effs = [] := by
+  decide
 
 /-! ## Non-vacuity -/
 
